@@ -8,7 +8,7 @@ from ..agree import collect_sites
 from ..cfg import CFG
 from ..model import AnalysisError, Cls, Func, Repo, is_self_attr, short, walk_no_nested
 from ..report import RuleResult
-from .common import enclosing_stmt, exported_estimators, names_in, norm, parents_map, tainted_names
+from .common import enclosing_stmt, expand_locals, exported_estimators, names_in, norm, parents_map, tainted_names
 
 PP = "vectorizers/preprocessing.py"
 ANCHOR_FILES = {PP, "vectorizers/ngram_vectorizer.py", "vectorizers/ngram_token_cooccurence_vectorizer.py"}
@@ -358,12 +358,42 @@ def r5_5(repo: Repo) -> RuleResult:
     return rr
 
 
-RULES = [r5_1, r5_2, r5_3, r5_4, r5_5]
+def r5_6(repo: Repo) -> RuleResult:
+    """The bounds are `occurrences / total` (one division).  A token sitting exactly on a bound is kept only if its
+    frequency is computed the same way - an integer count divided once by the total.  A frequency accumulated as a
+    sum of k fractions 1/n differs from k/n in the last bit for many (k, n), and the strict comparison then prunes it."""
+    rr = RuleResult("R5.6", "frequency tables are an integer count divided once by the total (never a sum of fractions)", floor=3)
+    names = ("construct_document_frequency", "construct_timed_document_frequency", "construct_token_dictionary_and_frequency")
+    for nm in names:
+        f = repo.func(PP, nm)
+        rets = [n for n in walk_no_nested(f.node) if isinstance(n, ast.Return) and n.value is not None]
+        if len(rets) != 1:
+            raise AnalysisError("R5.6: %s has %d return statements" % (nm, len(rets)))
+        comps = rets[0].value.elts if isinstance(rets[0].value, ast.Tuple) else [rets[0].value]
+        divs = [c for c in comps if isinstance(expand_locals(c, f, 3), ast.BinOp) and isinstance(expand_locals(c, f, 3).op, ast.Div)]
+        frac = []
+        for n in walk_no_nested(f.node):
+            if isinstance(n, ast.AugAssign) and isinstance(n.op, (ast.Add, ast.Sub)):
+                v = expand_locals(n.value, f, 3)
+                if any(isinstance(x, ast.BinOp) and isinstance(x.op, ast.Div) for x in ast.walk(v)):
+                    frac.append(n)
+        if frac:
+            rr.bad(f, "frequency table", "`%s` accumulates fractions (`%s`): the sum of k copies of 1/n is not k/n in floating point, so a token "
+                   "occurring in exactly the bound number of documents falls on the wrong side of the strict comparison for many (k, n)"
+                   % (short(frac[0], 50), norm(expand_locals(frac[0].value, f, 3))), frac[0].lineno)
+        elif not divs:
+            rr.bad(f, "frequency table", "the returned frequencies are `%s`, not a count divided by the total" % short(rets[0].value, 60), rets[0].lineno)
+        else:
+            rr.ok(f, "frequency table", "`%s`: counts divided once by the total" % norm(expand_locals(divs[0], f, 3))[:70], rets[0].lineno)
+    return rr
+
+
+RULES = [r5_1, r5_2, r5_3, r5_4, r5_5, r5_6]
 CLAIM = (
     "R5.1 every index assignment on the fit path of the vocabulary code iterates a source whose order derives from sorted(...) "
     "(order-kind propagation through comprehensions, dict order and call sites); R5.2 completeness of the constraint plumbing: "
     "constructor parameter -> preprocessing call -> prune call -> returned dictionary, for every estimator and every parameter; "
-    "R5.3 the five bound comparisons are strict with the right polarity; R5.4 the pruning call is dominated by `token_dictionary is None`; R5.5 precision kinds at the bound comparisons: token frequencies are float32 (traced to their .astype), so the bounds they are compared with must stay Python scalars (NumPy promotion then compares in float32 and a count equal to the bound ties exactly) - a NumPy float64 scalar bound is a violation."
+    "R5.3 the five bound comparisons are strict with the right polarity; R5.4 the pruning call is dominated by `token_dictionary is None`; R5.5 precision kinds at the bound comparisons: token frequencies are float32 (traced to their .astype), so the bounds they are compared with must stay Python scalars (NumPy promotion then compares in float32 and a count equal to the bound ties exactly) - a NumPy float64 scalar bound is a violation; R5.6 the three frequency tables are an integer count divided once by the total - no accumulation of fractions."
 )
 NOT_DECIDED = (
     "the residual double-rounding question (bound computed in double then rounded to float32 vs the float32 division): measured - no "
